@@ -19,7 +19,7 @@ func init() {
 		Patterns: []string{"./ring"},
 		Run:      runC01,
 		Explanation: "Decides structural necessary conditions of 'key lookup returns the consistent-hash replica set with its exact quorum slack': (R1) the Operation bitmap: NewOp's extension loop covers every declared InstanceState, encode and decode use the same shifts, the two halves cannot overlap, allStatesRingOperation has every state healthy and no extension bit; (R2) Get and GetWithOptions both return getReplicationSetForKey, whose result is exactly Filter(findInstancesForKey(key, op, …), op, …) under one read-lock hold; " +
-			"(R3) the walk's bookkeeping: a newly seen instance is appended ⇔ the caller's filter (if any) includes it — under no other condition — and the set is extended ⇔ the operation declares that instance's state as extending; the instance examined is the owner of the current token; zone exhaustion counts all instances of the zone; (R4) the default strategy computes the quorum before removing unhealthy instances, over max(RF, walked), fails ⇔ healthy < quorum and returns slack = healthy − quorum. NOT decided: the successor search, walk termination and zone counters arithmetic, the majority formula's value, the consequence for added/removed instances.",
+			"(R3) the walk's bookkeeping: a newly seen instance is appended ⇔ the caller's filter (if any) includes it — under no other condition — and the set is extended ⇔ the operation declares that instance's state as extending; the instance examined is the owner of the current token; zone exhaustion counts all instances of the zone; (R4) the default strategy computes the quorum before removing unhealthy instances, over max(RF, walked), fails ⇔ healthy < quorum and returns slack = healthy − quorum. R2 also requires the replication factor given to Filter to be the caller's or the configured value on every path (never a derived quantity); R4 also requires an instance to stay in the set ⇔ InstanceDesc.IsHealthy(op, timeout, now), which is state-accepted ∧ heartbeat-fresh. NOT decided: the successor search, walk termination and zone counters arithmetic, the majority formula's value, the consequence for added/removed instances.",
 	}
 }
 
@@ -305,16 +305,16 @@ func c01Walk(c *core.Ctx, pkg *packages.Package) {
 		return
 	}
 	t := an.Table{G: g, From: g.Locate(addCall), Opts: an.ExecOpts{Header: header}, FreeUnknown: true,
-		Atoms: []an.Atom{{Name: "nofilter", Values: []string{"T", "F"}}, {Name: "include", Values: []string{"T", "F"}}},
-		Binder: &an.Binder{Fn: fn, Re: []an.ReRole{an.RE(`^p5\(.*\)#0$`, "FILTER#0")}, Eq: map[string]string{"p5|nil": "nofilter"}, Bool: map[string]string{"FILTER#0": "include"}},
+		Atoms:   []an.Atom{{Name: "nofilter", Values: []string{"T", "F"}}, {Name: "include", Values: []string{"T", "F"}}},
+		Binder:  &an.Binder{Fn: fn, Re: []an.ReRole{an.RE(`^p5\(.*\)#0$`, "FILTER#0")}, Eq: map[string]string{"p5|nil": "nofilter"}, Bool: map[string]string{"FILTER#0": "include"}},
 		Targets: []an.Loc{g.Locate(app)}, Names: []string{"append(instances, instance)"},
 		Want: func(r an.Row, _ int) an.Tri { return an.FromBool(r["nofilter"] == "T" || r["include"] == "T") }}
 	res := t.Run()
 	c.Check(res.OK(), "R3", "walk:append", app.Pos(), "a newly examined instance is added to the walked set ⇔ no caller filter ∨ the filter includes it — independent of state, health or any other condition (the strategy needs extending instances for the quorum size): "+res.Summary(), res.Rows)
 	// extend ⇔ op.ShouldExtendReplicaSetOnState(instance.State)
 	t2 := an.Table{G: g, From: g.Locate(addCall), Opts: an.ExecOpts{Header: header}, FreeUnknown: true,
-		Atoms: []an.Atom{{Name: "extends", Values: []string{"T", "F"}}},
-		Binder: &an.Binder{Fn: fn, Re: []an.ReRole{an.RE(`^p1\.ShouldExtendReplicaSetOnState\(recv\.ringDesc\.Ingesters\[.*\]\.State\)$`, "EXTENDS")}, Bool: map[string]string{"EXTENDS": "extends"}},
+		Atoms:   []an.Atom{{Name: "extends", Values: []string{"T", "F"}}},
+		Binder:  &an.Binder{Fn: fn, Re: []an.ReRole{an.RE(`^p1\.ShouldExtendReplicaSetOnState\(recv\.ringDesc\.Ingesters\[.*\]\.State\)$`, "EXTENDS")}, Bool: map[string]string{"EXTENDS": "extends"}},
 		Targets: []an.Loc{g.Locate(inc)}, Names: []string{"replicaSetSize++"},
 		Want: func(r an.Row, _ int) an.Tri { return an.FromBool(r["extends"] == "T") }}
 	res2 := t2.Run()
@@ -443,8 +443,8 @@ func c01Filter(c *core.Ctx, pkg *packages.Package) {
 	_, _, done := g.LoopBlocks(loop)
 	inst := fn.Obj.Type().(*types.Signature).Params().At(0)
 	t := an.Table{G: g, From: an.Loc{B: done, I: 0}, Opts: an.ExecOpts{NoTrack: map[types.Object]bool{inst: true}}, MayOnly: true,
-		Atoms: []an.Atom{{Name: "cmp", Values: []string{"lt", "eq", "gt"}}},
-		Binder: &an.Binder{Fn: fn, Cmp: map[string]string{"len(instances)|minSuccess": "cmp", "len(p0)|((p2 / 2) + 1)": "cmp", "len(instances)|((p2 / 2) + 1)": "cmp", "len(instances)|((replicationFactor / 2) + 1)": "cmp"}},
+		Atoms:   []an.Atom{{Name: "cmp", Values: []string{"lt", "eq", "gt"}}},
+		Binder:  &an.Binder{Fn: fn, Cmp: map[string]string{"len(instances)|minSuccess": "cmp", "len(p0)|((p2 / 2) + 1)": "cmp", "len(instances)|((p2 / 2) + 1)": "cmp", "len(instances)|((replicationFactor / 2) + 1)": "cmp"}},
 		Targets: []an.Loc{g.Locate(okRet[0]), g.Locate(errRet[0])}, Names: []string{"success", "error"},
 		Want: func(r an.Row, i int) an.Tri { return an.FromBool((r["cmp"] != "lt") == (i == 0)) }}
 	res := t.Run()
